@@ -396,3 +396,117 @@ func ZZ_C12_H4() {
 		zz.Assert("method-not-allowed-runs-engine-middleware-then-custom-handler", same)
 	}
 }
+
+func zzTryGET(e *Engine, path string, hs []app.HandlerFunc) (ok bool) {
+	defer func() {
+		if r := recover(); r != nil {
+			ok = false
+		}
+	}()
+	e.GET(path, hs...)
+	return true
+}
+
+// ZZ_C12_H5: (a) very long chains: registration refuses a chain that cannot be indexed (63
+// handlers and more) and a chain that is accepted runs every handler once, in order; (b) request
+// sequences with middleware attached between requests: each request runs the engine middleware
+// attached before it was served - matched, not-found and method-not-allowed paths alike - so a
+// chain built for an earlier request is never reused stale.
+func ZZ_C12_H5() {
+	if zz.Choose("part", 2) == 0 {
+		n := []int{1, 61, 62, 63, 127, 128, 129, 200, 256, 257, 300}[zz.Choose("chainLength", 11)]
+		count := 0
+		order := true
+		hs := make([]app.HandlerFunc, n-1) // + one engine middleware = n
+		for i := range hs {
+			idx := i + 1
+			hs[i] = func(c context.Context, ctx *app.RequestContext) {
+				if count != idx {
+					order = false
+				}
+				count++
+				ctx.Next(c)
+			}
+		}
+		e := zzNewEngine()
+		e.Use(func(c context.Context, ctx *app.RequestContext) {
+			if count != 0 {
+				order = false
+			}
+			count++
+			ctx.Next(c)
+		})
+		accepted := true
+		if n > 1 {
+			accepted = zzTryGET(e, "/long", hs)
+		} else {
+			e.GET("/long")
+		}
+		zz.Cover("reached-assert", true)
+		zz.Cover("refused", !accepted)
+		if n >= 63 {
+			zz.Assert("chain-too-long-to-index-is-refused", !accepted)
+			return
+		}
+		zz.Assert("chain-within-the-limit-is-accepted", accepted)
+		ctx := app.NewContext(0)
+		ctx.Request.SetHost("h")
+		ctx.Request.Header.SetMethod("GET")
+		ctx.Request.SetRequestURI("/long")
+		e.ServeHTTP(context.Background(), ctx)
+		zz.Assert("every-handler-of-a-long-chain-runs-once-in-order", count == n && order)
+		return
+	}
+	// (b)
+	var tr []int
+	mk := func(id int) app.HandlerFunc {
+		return func(c context.Context, ctx *app.RequestContext) {
+			tr = append(tr, id)
+			ctx.Next(c)
+		}
+	}
+	e := zzNewEngine()
+	e.Use(mk(100))
+	if zz.Choose("customNoMethod", 2) == 1 {
+		e.NoMethod(mk(500))
+	}
+	e.GET("/r", mk(200))
+	mw := []int{100}
+	okAll := true
+	for i := 0; i < 2; i++ {
+		if i == 1 {
+			e.Use(mk(101)) // attached between the two requests
+			mw = append(mw, 101)
+		}
+		req := zz.Choose("request", 3) // 0 matched, 1 unmatched, 2 wrong method
+		ctx := app.NewContext(0)
+		ctx.Request.SetHost("h")
+		ctx.Request.Header.SetMethod("GET")
+		ctx.Request.SetRequestURI("/r")
+		switch req {
+		case 1:
+			ctx.Request.SetRequestURI("/nope")
+		case 2:
+			ctx.Request.Header.SetMethod("POST")
+		}
+		tr = tr[:0]
+		e.ServeHTTP(context.Background(), ctx)
+		// the engine middleware attached so far comes first on every path (the matched route was
+		// registered before the second Use, so it keeps the chain it was registered with)
+		want := mw
+		if req == 0 {
+			want = []int{100}
+		}
+		if len(tr) < len(want) {
+			okAll = false
+		} else {
+			for k := range want {
+				if tr[k] != want[k] {
+					okAll = false
+				}
+			}
+		}
+	}
+	zz.Cover("reached-assert", true)
+	zz.Assert("every-request-runs-the-engine-middleware-attached-before-it", okAll)
+}
